@@ -20,16 +20,29 @@ Match(e) ==
     [] e.act = "delvar"       -> DelVar(e.args.k)
     [] e.act = "rename_ds"    -> RenameViaDs(e.args.d, e.args.n)
     [] e.act = "rename_var"   -> RenameViaVar(e.args.k, e.args.j, e.args.n)
-    [] e.act = "set_dims"     -> SetDims(e.args.names)
+    \* logged as old name -> new name (the order of a Dataset's axes is not promised by C13; SetDims is positional in the machine's order)
+    [] e.act = "set_dims"     -> /\ Len(e.args.olds) = Len(dsaxes) /\ \A q \in 1..Len(dsaxes) : \E r \in 1..Len(e.args.olds) : e.args.olds[r] = NameOf(dsaxes[q])
+                                 /\ SetDims([q \in 1..Len(dsaxes) |-> e.args.names[CHOOSE r \in 1..Len(e.args.olds) : e.args.olds[r] = NameOf(dsaxes[q])]])
     [] e.act = "rename_axes"  -> RenameAxes(e.args.d, e.args.n)
     [] e.act = "rename_keys"  -> RenameKeys(e.args.k, e.args.n)
     [] e.act = "set_axis"     -> SetAxisValues(e.args.d, e.args.labs)
     [] e.act = "relabel_one"  -> RelabelOne(e.args.d, e.args.i, e.args.v)
     [] e.act = "replace_axis" -> ReplaceAxisObject(e.args.d, e.args.labs)
     [] e.act = "append_axis"  -> AppendAxis(e.args.d, e.args.labs)
+    [] e.act = "set_axis_var" -> SetAxisViaVar(e.args.k, e.args.j, e.args.labs)
+    [] e.act = "relabel_one_var" -> RelabelOneViaVar(e.args.k, e.args.j, e.args.i, e.args.v)
+    [] e.act = "rename_var_set_axis" -> RenameViaVarSetAxis(e.args.k, e.args.j, e.args.n)
+    [] e.act = "continue_copy" -> ContinueOn("copy", e.args)
+    [] e.act = "continue_rename_axes_copy" -> ContinueOn("rename_axes_copy", e.args)
+    [] e.act = "continue_set_axis_copy" -> ContinueOn("set_axis_copy", e.args)
+    [] e.act = "continue_rename_keys_copy" -> ContinueOn("rename_keys_copy", e.args)
     [] e.act \in {"copy", "cross_assign", "rename_axes_copy", "set_axis_copy", "rename_keys_copy"} -> Pure(e.act, e.args)
 
-Agrees == hist'[Len(hist')].ok = Ev.ok /\ Proj' = Ev.post
+\* the Dataset's dimensions are compared as a set of (name, labels); the variables (own dimension order, labels, cells, sharing) exactly
+DimSet(p) == {<<p.dims[i], p.labs[i]>> : i \in 1..Len(p.dims)}
+Agrees == /\ hist'[Len(hist')].ok = Ev.ok
+          /\ Len(Proj'.dims) = Len(Ev.post.dims) /\ Len(Ev.post.labs) = Len(Ev.post.dims) /\ DimSet(Proj') = DimSet(Ev.post)
+          /\ Proj'.vars = Ev.post.vars
 TNext ==
   /\ l >= 1 /\ l <= Len(Traces[tid].events)
   /\ Match(Ev)
